@@ -224,7 +224,10 @@ def correspond(H, tier, rng, driver_ok, stats, spec_only=False, limit=None, mode
                 idx = [i for i in idx if sel(cases[i], mode, tier)]
                 sub = [cases[i] for i in idx]
         outs = lib.run_impl(H.__name__.split(".")[-1], sub, mode=mode)
-        impl_by_mode[mode] = dict(zip(idx, outs))
+        cut = any(o == lib.SKIPPED for o in outs)
+        impl_by_mode[mode] = {i: o for i, o in zip(idx, outs) if o != lib.SKIPPED}
+        if cut:
+            break        # the batch was cut short after several hangs: they are reported; further modes would only repeat them
     compare = getattr(H, "compare", default_compare)
     nontriv = set()
     dist = {}
